@@ -247,14 +247,15 @@ def plan_pot(cases: Cases, behs: list, quick: bool, rnd: random.Random) -> None:
         for n, b in enumerate(bs):
             cases.add(key, passes, FI.pot_inputs(meta, [b["adc"]], passes),
                       [{"comp": "pot", "id": f"pot-{shape}-{n}", "i": 0, "pin": pin}], b)
-    key = cases.shape("pot/two", FI.pot_shape("two"))
-    meta = cases.shapes[key]
     a, c = list(by_pin.get(15, [])), list(by_pin.get(17, []))
     rnd.shuffle(c)
-    for n, (x, y) in enumerate(list(zip(a, c))[:40 if quick else 10 ** 9]):
-        cases.add(key, 2, FI.pot_inputs(meta, [x["adc"], y["adc"]], 2),
-                  [{"comp": "pot", "id": f"pot-two-{n}-p0", "i": 0, "pin": 15}, {"comp": "pot", "id": f"pot-two-{n}-p1", "i": 1, "pin": 17}],
-                  {"adc": [x["adc"], y["adc"]]})
+    for shape in ("two", "rebound"):
+        key = cases.shape("pot/" + shape, FI.pot_shape(shape))
+        meta = cases.shapes[key]
+        for n, (x, y) in enumerate(list(zip(a, c))[:40 if quick else 10 ** 9]):
+            cases.add(key, 2, FI.pot_inputs(meta, [x["adc"], y["adc"]], 2),
+                      [{"comp": "pot", "id": f"pot-{shape}-{n}-p0", "i": 0, "pin": 15}, {"comp": "pot", "id": f"pot-{shape}-{n}-p1", "i": 1, "pin": 17}],
+                      {"adc": [x["adc"], y["adc"]]})
 
 
 def plan_us(cases: Cases, behs: list, quick: bool, rnd: random.Random) -> None:
